@@ -95,6 +95,7 @@ class Chain:
     def __init__(s, S, fname, name=None, pre=None, bounds='', mandatory=True, timeout=None, extra_hyps=None, ins=None, witness=True, direct_solver='nra', witness_at=None):
         s.S = S; s.direct_solver = direct_solver; s.fname = fname; s.name = name or 'c12.' + fname; s.prefn = pre; s.mandatory = mandatory; s.tm = timeout or S.cap(60, 200)
         s.fn = U.fns[fname]; s.facts = {}; s.nf = 0
+        if getattr(S, 'c12_fail', 0) >= 3: s.tm = min(s.tm, S.cap(20, 60))        # several obligations of this job have already failed: keep the rest short
         try: s.res = sym_call(U, fname, ins=ins, mode='real')
         except Unsupported as e:
             S.rec(name=s.name, kind='encode', result='unsupported', status='not-encoded', note=str(e), mandatory=mandatory, functions=[fname])
@@ -155,6 +156,7 @@ class Chain:
         except z3.Z3Exception: r, dt, used = 'unknown', 0.0, s.direct_solver
         if r == 'unsat': done(r, dt, used, ''); return True
         s.tm = min(s.tm, s.S.cap(20, 60))          # something is wrong with this function: the remaining direct queries get a short budget (the job must end inside its cap)
+        s.S.c12_fail = getattr(s.S, 'c12_fail', 0) + 1
         # not proved: look for a ROBUST counterexample first (bounded inputs, the atom violated by a margin) - nlsat otherwise returns models that violate an equality by 1e-9 and do not
         # survive the float replay.  The extra constraints only narrow the search; any model is a counterexample of the unrestricted obligation.
         hy = s.base
@@ -654,7 +656,7 @@ def fp_check(S, fname, spec, pre=None, *, name, timeout, solver='z3', bounds='',
         ga = abstract_arith(hyps + [g])
         r, m, dt, used = S.query(ga[:-1] + [z3.Not(ga[-1])], S.cap(10, 30), 'z3')
         if r == 'unsat': done(used, dt, '; generalised over the arithmetic sub-terms'); continue
-        t1 = 5 if found else S.cap(30, 90)
+        t1 = 5 if found else (S.cap(10, 30) if getattr(S, 'c12_fail', 0) >= 3 else S.cap(30, 90))
         r, m, dt, used = S.query(hyps + facts + [z3.Not(g)], t1, solver, vars_)
         if r == 'unsat': done(used, dt); continue
         hy = hyps + facts
@@ -668,6 +670,7 @@ def fp_check(S, fname, spec, pre=None, *, name, timeout, solver='z3', bounds='',
             found = found or len(S.violations) > nv
         else:
             S.rec(name=oname, kind='spec', functions=fnlist, bounds=binfo, solver=used, result='unknown', time_s=round(dt, 3), status='inconclusive', mandatory=True); S.inconclusive.append(oname)
+            S.c12_fail = getattr(S, 'c12_fail', 0) + 1
     return res
 def zero_tail(rows, keep=1):
     """slice: all but the first `keep` components of the listed input vectors are +0"""
